@@ -72,10 +72,10 @@ contract("History._perform_redos", source=M + "History._perform_redos", params={
 # ---- undo / redo (plain: change is None) ---------------------------------------------------------------
 specdef("distinct", {"s": "Seq[Change]"}, "Bool", "forall(lambda a, b: implies(0 <= a and a < b and b < len(s), s[a] != s[b]))")
 contract("History._find_dependencies", abstract=True, params={"self": "History", "change_list": "Seq[Change]", "change": "Change"},
-         returns="Seq[Change]", requires=["len(change_list) >= 1"],
+         returns="Seq[Change]", requires=["len(change_list) >= 1", "change in change_list"],
          ensures=["len(result) >= 1", "result[0] == change", "len(result) <= len(change_list)",
                   "implies(change == change_list[len(change_list) - 1] and distinct(change_list), result == [change])"],
-         note="verified below as _FindChangeDependencies.__call__ (subsequence starting at the change, closed under resource dependency)")
+         note="this very contract is verified from the body in c11_dependencies2.py (index, slice, _FindChangeDependencies.__init__ and __call__)")
 contract("History._move_front", source=M + "History._move_front", params={"self": "History", "change_list": "Seq[Change]", "changes": "Seq[Change]"},
          requires=["len(changes) == 1", "len(change_list) >= 1", "changes[0] == change_list[len(change_list) - 1]", "distinct(change_list)"],
          ensures=[], loops={1: {"unroll": 1}}, inline=True,
